@@ -127,6 +127,12 @@ mod inner {
         ///
         /// `self` may not include *any* zeros.
         pub unsafe fn transmute_into_vec(self) -> Vec<f64> {
+            #[cfg(rosu_pp_verif)]
+            crate::verif::contract(
+                self.inner.iter().all(|entry| entry.is_value()),
+                "StrainsVec::transmute_into_vec called on a list that includes a zero",
+            );
+
             // SAFETY: `StrainsEntry` has the same properties as `f64`
             unsafe { mem::transmute::<Vec<StrainsEntry>, Vec<f64>>(self.inner) }
         }
@@ -261,6 +267,12 @@ mod inner {
             /// `value` must be positive, i.e. neither negative nor zero.
             #[inline]
             pub const unsafe fn new_value(value: f64) -> Self {
+                #[cfg(rosu_pp_verif)]
+                assert!(
+                    value.to_bits() > 0 && value.is_sign_positive(),
+                    "rosu_pp_verif contract violated: StrainsEntry::new_value called with a value that is not positive"
+                );
+
                 Self { value }
             }
 
